@@ -27,6 +27,7 @@ type ForeignParams struct {
 	Pad    string `json:"pad,omitempty"`    // EC scalar: fixed | stripped | extra
 	Sig    string `json:"sig,omitempty"`    // signature algorithm name; default SHA-256 of the signer's family
 	AltDN  bool   `json:"altDN,omitempty"`  // the certificate's subject text differs from the config's subject
+	Order  string `json:"order,omitempty"`  // "" certificate first | key-first (as some tools write it)
 	Point  string `json:"point,omitempty"`  // EC public key in the certificate: "" uncompressed | compressed (NIST curves only)
 	Odd    string `json:"odd,omitempty"`    // structurally valid but unusual certificate/request (see oddKinds)
 }
@@ -375,8 +376,36 @@ func buildForeignArtifact(w *World, e *EntitySpec, arg string) ([]byte, error) {
 		}
 		out = append(out, pemEncode("CERTIFICATE", der)...)
 	}
+	if has(p.Parts, "chain") {
+		// a bundle as `cat cert chain key` leaves it: the issuer's certificate (or any other) after the own one
+		var chain []byte
+		if e.Issuer != "" {
+			if ie := w.EntByAlias(e.Issuer); ie != nil {
+				if ia := w.Artifact(ie); ia.CertBlk != nil {
+					chain = ia.CertBlk.Bytes
+				}
+			}
+		}
+		if chain == nil {
+			ck, err := genKey("P-256")
+			if err != nil {
+				return nil, err
+			}
+			dn := derName([]RDN{{"CN", "Some Chain CA"}}, "utf8")
+			chain, err = buildCert(dn, dn, ck.spki(), ck.priv, ck.fam, "", time.Now().AddDate(-1, 0, 0), time.Now().AddDate(50, 0, 0), 99, nil)
+			if err != nil {
+				return nil, err
+			}
+		}
+		out = append(out, pemEncode("CERTIFICATE", chain)...)
+	}
 	if has(p.Parts, "key") {
-		out = append(out, pemEncode("PRIVATE KEY", k.pkcs8(p))...)
+		kb := pemEncode("PRIVATE KEY", k.pkcs8(p))
+		if p.Order == "key-first" {
+			out = append(kb, out...)
+		} else {
+			out = append(out, kb...)
+		}
 	}
 	if has(p.Parts, "csr") {
 		csrSubj := derName(e.Subject, p.Str)
